@@ -394,6 +394,30 @@ func flows() []flow {
 				}
 				return "", ""
 			}},
+		// server-led: the node creates its credentials around an activation token; the one
+		// write of that call is as much a promise of durability as without a token
+		flow{name: "node-create-token", nodeSide: true, setup: func(c *cx) {
+			_, tok, err := registration.CreateServerLedActivationToken(bg, c.w.Store, &types.ServerLedRegistrationRequest{}, c.w.O()...)
+			must(err)
+			c.token = tok
+		},
+			run: func(c *cx) (err error) {
+				c.creds, err = types.NewNodeCredentials(bg, c.nodeSt, c.w.O(nodeenrollment.WithActivationToken(c.token))...)
+				return
+			},
+			verify: func(c *cx, err error) (string, string) {
+				if err != nil {
+					if c.creds != nil {
+						return "node-credentials-with-error", "an error was returned together with node credentials"
+					}
+					return "", ""
+				}
+				l, lerr := types.LoadNodeCredentials(bg, c.nodeSt.Inner, nodeenrollment.CurrentId, c.w.O()...)
+				if lerr != nil || !proto.Equal(l, c.creds) {
+					return "node-credentials-not-persisted", fmt.Sprintf("NewNodeCredentials (with an activation token) reported success but the credentials do not load back equal (%v)", lerr)
+				}
+				return "", ""
+			}},
 		flow{name: "node-handle-response", nodeSide: true, setup: func(c *cx) {
 			creds, err := types.NewNodeCredentials(bg, c.nodeSt, c.w.O()...)
 			must(err)
